@@ -117,6 +117,12 @@ func gen(g *vh.Gen) {
 	for _, m := range []string{"000", "100", "010", "001", "110", "101", "011", "111"} {
 		g.Emit("boot", m, "1h")
 	}
+	// shutdown requested before / during start-up: every port the server bound is closed again
+	g.Emit("early", "pre", "-")
+	g.Emit("early", "race", "-")
+	for _, b := range []string{"web", "smtp", "pop3"} {
+		g.Emit("early", "clash", b)
+	}
 	g.Emit("boot", "000", "0s")
 	g.Emit("boot", "010", "0s")
 	// the orderings the model enumerates for one session in each protocol state
